@@ -24,6 +24,9 @@ HOSTILE_NAMES = ['NEWS,AM,S1', '5" x 7\' card', 'S1', 's1', 'S1 ', 'S10', ' S1',
 # a second ordering of hostile names for the quick grids (which only use the first few): IDs that differ
 # in surrounding white space, case and zero padding only
 HOSTILE_NAMES_B = ['S1', 'S1 ', ' S1', 'S01', 's1', 'S10']
+# numeric IDs that are equal as numbers and different as IDs; digits that are not ASCII digits
+HOSTILE_NAMES_C = ['7', '07', '+7', '70', '\u00b2', '\u2460\u2461']
+NUMERIC_UNKNOWN = '007'
 HOSTILE_UNKNOWN = 'SPORT,AM,S1'       # not in any running order, but its last component is
 # IDs longer than the protocol's nominal 128 characters that differ only after that length
 _LONG = 'OPENMEDIA/2020-01-01/' + 'x' * 107
@@ -35,6 +38,8 @@ assert len(_LONG) == 128
 def _unknown_for(names):
     if names is LONG_NAMES:
         return LONG_UNKNOWN
+    if names is HOSTILE_NAMES_C:
+        return NUMERIC_UNKNOWN
     return HOSTILE_UNKNOWN
 
 
@@ -351,6 +356,9 @@ def collection_merge(s, docs, strict, allow_incomplete=True, ctx=None, how='stri
         EV.STATE['quiet'] -= 1
     with W.catch_warnings(record=True) as wl:
         W.simplefilter('always')
+        # a filter with a message pattern in front (it matches nothing): the warnings machinery applies the
+        # pattern to the TEXT of every warning on its way to the next filter
+        W.filterwarnings('ignore', message='this text never occurs in a mosromgr warning', category=DeprecationWarning)
         EV.STATE['quiet'] = EV.STATE.get('quiet', 0) + 1
         try:
             mc.merge(strict=strict)
@@ -483,6 +491,9 @@ def merge_collection(s, mc, strict):
     from .. import events as EV
     with W.catch_warnings(record=True) as wl:
         W.simplefilter('always')
+        # a filter with a message pattern in front (it matches nothing): the warnings machinery applies the
+        # pattern to the TEXT of every warning on its way to the next filter
+        W.filterwarnings('ignore', message='this text never occurs in a mosromgr warning', category=DeprecationWarning)
         EV.STATE['quiet'] = EV.STATE.get('quiet', 0) + 1
         try:
             mc.merge(strict=strict)
